@@ -13,7 +13,7 @@ import (
 func init() {
 	register(&propInfo{
 		ID:          "C01",
-		Explanation: "Symbolic comparison of index expressions (linear forms over loop indexes and descriptor fields, resolved through locals, helpers and the stores that fill the descriptor fields) at the places where argument and result positions are decided: (R01.1) on the server the slot of the reflective call's argument list into which parameter i is stored equals the index of the declared input whose type was used to decode it (the receiver-type table is filled with In(e1) at index e2; the value decoded with entry j is stored at slot e1[e2:=j]); (R01.2) the argument list is made with as many slots as the method has inputs, and the context is placed in exactly the input position that was tested for being a context (server: behind the receiver; client: first argument); (R01.3) on the client the i-th wire parameter is the argument at position i + (number of leading context arguments), for the same i, and the parameter list has len(args) minus that number of entries. These are the structural halves of 'calling the client function runs the handler with those arguments': a position mismatch makes reflect.Call panic or hands an argument to the wrong parameter for signatures the suite does not exercise (context plus several parameters, three or more parameters). (R01.4) no frame, parameter or result bytes live in sync.Pool memory that is put back (also by a deferred closure) while a slice of it was sent on a channel or returned; (R01.5) every handler argument is decoded into a fresh reflect.New of the declared type; (R01.6) the context input and error output of a signature are recognised by identity of the declared In/Out type with the reference type, never by Implements/AssignableTo/ConvertibleTo. (R01.7) between building the response and emitting it the result or the error member is set on every path; (R01.8) tables filled by options are made per configuration value; (R01.9) no proxy function is bound to a copy of the client. (R01.10) before the handler runs a request is refused only for an unknown method, an unsupported channel mode or bad params.",
+		Explanation: "Symbolic comparison of index expressions (linear forms over loop indexes and descriptor fields, resolved through locals, helpers and the stores that fill the descriptor fields) at the places where argument and result positions are decided: (R01.1) on the server the slot of the reflective call's argument list into which parameter i is stored equals the index of the declared input whose type was used to decode it (the receiver-type table is filled with In(e1) at index e2; the value decoded with entry j is stored at slot e1[e2:=j]); (R01.2) the argument list is made with as many slots as the method has inputs, and the context is placed in exactly the input position that was tested for being a context (server: behind the receiver; client: first argument); (R01.3) on the client the i-th wire parameter is the argument at position i + (number of leading context arguments), for the same i, and the parameter list has len(args) minus that number of entries. These are the structural halves of 'calling the client function runs the handler with those arguments': a position mismatch makes reflect.Call panic or hands an argument to the wrong parameter for signatures the suite does not exercise (context plus several parameters, three or more parameters). (R01.4) no frame, parameter or result bytes live in sync.Pool memory that is put back (also by a deferred closure) while a slice of it was sent on a channel or returned; (R01.5) every handler argument is decoded into a fresh reflect.New of the declared type; (R01.6) the context input and error output of a signature are recognised by identity of the declared In/Out type with the reference type, never by Implements/AssignableTo/ConvertibleTo. (R01.7) between building the response and emitting it the result or the error member is set on every path; (R01.8) tables filled by options are made per configuration value; (R01.9) no proxy function is bound to a copy of the client. (R01.10) before the handler runs a request is refused only for an unknown method, an unsupported channel mode or bad params. (R01.11) the reply's result is decoded whenever it is present, not depending on its bytes; (R01.12) the reverse client is built per connection. (R01.13) every wire parameter is the caller's argument or a parameter encoder's result; (R01.14) inbound frames are decoded into fresh memory.",
 		NotDecided:  "Everything about values: JSON round trips (nil vs empty, 64-bit extremes, escaping), custom encoders/decoders, result positions computed by processFuncOut, equality of outcomes across transports and name formatters. Shapes that do not use index arithmetic (an argument list built by append) are reported as not compared, not as violations.",
 		Assumptions: []string{"reflect.Call requires argument k to be assignable to input k of the function", "descriptor fields are written only by the visible stores (closed struct types)"},
 		Run:         runC01,
@@ -251,6 +251,9 @@ func runC01(c *Ctx) {
 	c.resultDecodedWhenPresent("R01.11")
 	c.rule("R01.12", "a reverse call runs the handler of the very client it was made for: the reverse client, its queue and its proxy are built per connection")
 	c.reverseClientFresh("R01.12")
+	c.rule("R01.14", "the handler sees the parameters that were sent: inbound frames are decoded into fresh memory (a notification's params are still being read by its handler when the next frame arrives)")
+	c.freshDecodeTarget("R01.14")
+	c.ruleOpt("R01.13", "every wire parameter is the caller's argument itself or what a registered parameter encoder made of it — never a value the client substitutes (an empty slice for a nil one, a zero value)")
 	c.rule("R01.6", "the context input and the error output of a signature are recognised by identity of the declared type with context.Context / error, never by Implements/AssignableTo/ConvertibleTo")
 	c.signatureClassification("R01.6")
 	if r.FnDisp == nil || r.FnCall == nil {
@@ -513,6 +516,7 @@ func runC01(c *Ctx) {
 				// the argument this wire parameter is built from: an element of a reslice args[lo:]
 				var argIdx, lo ssa.Value
 				var base ssa.Value
+				var fresh *ssa.Call
 				seen := map[ssa.Value]bool{}
 				var walk func(v ssa.Value, d int)
 				walk = func(v ssa.Value, d int) {
@@ -537,6 +541,10 @@ func runC01(c *Ctx) {
 						case *ssa.Extract:
 							walk(x.Tuple, d+1)
 						case *ssa.Call:
+							switch calleeName(x) {
+							case "reflect.MakeSlice", "reflect.MakeMap", "reflect.MakeMapWithSize", "reflect.Zero", "reflect.New", "reflect.MakeChan":
+								fresh = x
+							}
 							for _, a := range x.Common().Args {
 								walk(a, d+1)
 							}
@@ -562,6 +570,8 @@ func runC01(c *Ctx) {
 					return
 				}
 				n++
+				c.check(fresh == nil, "R01.13", fmt.Sprintf("%s: wire parameter value", fname(fn)), c.ipos(st), "the caller's argument or a parameter encoder's result",
+					"a wire parameter can be a value the client made itself (reflect.MakeSlice/Zero/New …) instead of the caller's argument: what the handler receives is no longer what was passed (nil becomes empty, a raw message becomes invalid)")
 				construct := fmt.Sprintf("%s: wire parameter position", fname(fn))
 				pi, ai := env.lin(ia.Index, 0), env.lin(argIdx, 0)
 				c.check(pi.equal(ai), "R01.3", construct, c.ipos(st), "parameter i is built from element i of args[ctx:]",
